@@ -40,7 +40,7 @@ theorem runLoop_succ_cons (fuel k : Nat) (s : GState) (log : List Log) (h : (rea
       match step k (ready g act s).2 (ready g act s).1 with
       | .ok ns l => runLoop step g act mi fuel (k + 1) ns (log ++ l)
       | .fail e ps l => .fail e ps (log ++ l) (k + 1)
-      | .pause p l => .pause p (ready g act s).2 (log ++ l) (k + 1) := by
+      | .pause p ps l => .pause p ps (log ++ l) (k + 1) := by
   rw [runLoop]
   generalize ready g act s = r at h
   obtain ⟨rs, s1⟩ := r
@@ -60,10 +60,10 @@ inductive LoopOutcome (step : Nat → GState → List NodeD → StepOut) (g : Gr
   | stepFail (s0 s1 : GState) (rs : List NodeD) (k' : Nat) (e : ErrId) (ps : GState) (l log : List Log) :
       ready g act s0 = (rs, s1) → rs ≠ [] → step k' s1 rs = .fail e ps l → k ≤ k' → k' < k + fuel →
       LoopOutcome step g act mi k fuel (.fail e ps (log ++ l) (k' + 1))
-  /-- superstep number `k'` paused -/
-  | stepPause (s0 s1 : GState) (rs : List NodeD) (k' : Nat) (p : PauseInfo) (l log : List Log) :
-      ready g act s0 = (rs, s1) → rs ≠ [] → step k' s1 rs = .pause p l → k ≤ k' → k' < k + fuel →
-      LoopOutcome step g act mi k fuel (.pause p s1 (log ++ l) (k' + 1))
+  /-- superstep number `k'` paused: its pause, its partial state, unchanged -/
+  | stepPause (s0 s1 : GState) (rs : List NodeD) (k' : Nat) (p : PauseInfo) (ps : GState) (l log : List Log) :
+      ready g act s0 = (rs, s1) → rs ≠ [] → step k' s1 rs = .pause p ps l → k ≤ k' → k' < k + fuel →
+      LoopOutcome step g act mi k fuel (.pause p ps (log ++ l) (k' + 1))
   /-- all `fuel` supersteps were taken and the ready set is still non-empty: the state computed so far -/
   | limit (s0 s' : GState) (rs : List NodeD) (log : List Log) (n : Nat) :
       ready g act s0 = (rs, s') → rs ≠ [] → n = k + fuel →
@@ -75,7 +75,7 @@ theorem LoopOutcome.shift {step : Nat → GState → List NodeD → StepOut} {g 
   cases h with
   | quiescent s0 s' log n h1 h2 h3 => exact .quiescent s0 s' log n h1 (by omega) (by omega)
   | stepFail s0 s1 rs k' e ps l log h1 h2 h3 h4 h5 => exact .stepFail s0 s1 rs k' e ps l log h1 h2 h3 (by omega) (by omega)
-  | stepPause s0 s1 rs k' p l log h1 h2 h3 h4 h5 => exact .stepPause s0 s1 rs k' p l log h1 h2 h3 (by omega) (by omega)
+  | stepPause s0 s1 rs k' p ps l log h1 h2 h3 h4 h5 => exact .stepPause s0 s1 rs k' p ps l log h1 h2 h3 (by omega) (by omega)
   | limit s0 s' rs log n h1 h2 h3 => exact .limit s0 s' rs log n h1 h2 (by omega)
 
 theorem runLoop_outcome (step : Nat → GState → List NodeD → StepOut) (g : GraphD) (act : Option (List Name)) (mi : Nat) :
@@ -100,7 +100,7 @@ theorem runLoop_outcome (step : Nat → GState → List NodeD → StepOut) (g : 
       cases hs : step k (ready g act s).2 (ready g act s).1 with
       | ok ns l => exact (ih (k + 1) ns (log ++ l)).shift
       | fail e ps l => exact .stepFail s _ _ k e ps l log rfl h hs (Nat.le_refl _) (by omega)
-      | pause p l => exact .stepPause s _ _ k p l log rfl h hs (Nat.le_refl _) (by omega)
+      | pause p ps l => exact .stepPause s _ _ k p ps l log rfl h hs (Nat.le_refl _) (by omega)
 
 /-- the state after `j` successful supersteps starting from `s` at step number `k`
 (`none` when the loop ends earlier or a step does not succeed) -/
@@ -139,7 +139,7 @@ theorem runLoop_limit_exact (step : Nat → GState → List NodeD → StepOut) (
         obtain ⟨lg, hlg⟩ := ih (k + 1) ns (log ++ l) sF h hne
         exact ⟨lg, by simp only []; rw [hlg]; congr 1; omega⟩
       | fail e ps l => rw [hs] at h; simp at h
-      | pause p l => rw [hs] at h; simp at h
+      | pause p ps l => rw [hs] at h; simp at h
 
 /-! ## `runGraph` = loop, then a finishing function -/
 
